@@ -5,6 +5,7 @@ CONSTANTS
   Names <- MCNames
   Default = "numpy"
   PrevScope = "global"
+  WithDispatchModes = FALSE
   MaxOps = 4
 CONSTRAINT Bound
 INVARIANT TypeOK
